@@ -139,6 +139,23 @@ Theorem C16_unroll_negative_step_differs : exists lb ub step, step < 0 /\
 Proof. exact unroll_negative_step_differs. Qed.
 Print Assumptions C16_unroll_negative_step_differs.
 
+(* several loop-carried values: the state is a tuple and scf.yield is the SIMULTANEOUS assignment
+   `yield_sim`; C16_unroll above is over an arbitrary state type, hence in particular over tuples:
+   stated here for a body that ends in an arbitrary selector `sel` (permutations, rotations, mixes). *)
+Theorem C16_unroll_tuple : forall (f : Z -> list Z -> Z) (sel : list Z) lb ub step (vals : list Z), 0 < step ->
+  exists ivs, py_range lb ub step = Some ivs /\
+    unroll_sem (list Z) (fun iv v => yield_sim sel v (f iv v)) ivs vals
+    = for_sem (list Z) (fun iv v => yield_sim sel v (f iv v)) lb ub step vals.
+Proof. exact (fun f sel => unroll_correct (list Z) (fun iv v => yield_sim sel v (f iv v))). Qed.
+Print Assumptions C16_unroll_tuple.
+
+(* a swap `yield %b, %a` exchanges the values; overwriting one position after the other would not *)
+Example C16_yield_simultaneous :
+  yield_sim [1; 0] [5; 7] 0 = [7; 5] /\ yield_seq [1; 0] [5; 7] 0 = [7; 7]
+  /\ yield_sim [1; 2; 0] [1; 2; 3] 0 = [2; 3; 1] /\ yield_sim [1; -1] [5; 7] 9 = [7; 9]
+  /\ for_sem (list Z) (fun iv v => yield_sim [1; 0] v 0) 0 3 1 [5; 7] = [7; 5].
+Proof. vm_compute. repeat split. Qed.
+
 (* ---------------------------------------------------------------- licm *)
 Theorem C16_licm : forall st (body_v : Z -> Z -> st -> st) n v iv step s,
   licm_hoisted st body_v n (Some v) iv step s = licm_orig st body_v n (Some v) iv step s.
